@@ -33,12 +33,20 @@ joins the two:
 3. *`Rc` payloads are stored by value in their cell.* Environments are only ever reached through their heap
    index (`ep`, `Closure(_, env)`, `LexicalEnvPtr(env, _)`), lambdas and continuations are immutable, so
    for the core instruction set this is exact **except** where an `Rc` is aliased: `VPUSH` pushes through
-   the `Rc` and leaves an inline `Vector(Rc)` clone in `acc` — `vectorPush` is therefore a parameter
-   (`ExtOps`), like the builtins (`builtinKind`, `builtinEval`) and `eval`'s compiler (`compileEval`) — and
-   an instruction that stores that inline value back (`PUSH acc … CONS` in quasiquoted vector templates,
-   a VARARG rest argument) creates a second cell sharing the vector in Rust but a cell holding the
-   address-free representative `repr` here. The concrete-heap-step stream flags those steps (bucket
-   `alias`, witness corpus/C03/simstep-cons-inline-vector-alias.txt) and compares registers and stack only.
+   the `Rc` of the vector cell the popped pointer designates — `vectorPush` is therefore a parameter
+   (`ExtOps`), like the builtins (`builtinKind`, `builtinEval`) and `eval`'s compiler (`compileEval`); it
+   receives the address-free representative of the dereferenced cell, the heap effect is replayed from the
+   recorded delta by the driver. Since fix 43d0413 `acc` keeps the popped POINTER (`Machine.step`, arm
+   `.vpushAcc`: `acc := v`). Before the fix `acc` received the dereferenced vector — an inline `Vector(Rc)`
+   clone, rendered here as the atom `repr (.vector _) = .opaque "v"`, which has no elements: this model
+   could not see that such a value is not a root path for the collector (the elements of
+   `(define v `#(,(list 1 2)))` were reclaimed), and an instruction storing that inline value back
+   (`PUSH acc … CONS` in quasiquoted vector templates, a VARARG rest argument) created a second cell
+   sharing the vector in Rust but a cell holding the representative here (bucket `alias` of the
+   concrete-heap-step stream, witness corpus/C03/simstep-cons-inline-vector-alias.txt recorded on the
+   unrepaired code; the bucket is empty since the fix). The discipline "no dereferenced vector in a value
+   position" is the executable check `Vm/InlineCheck.lean: noInlineVecB`, evaluated on every real state
+   (clause `inline-vector` of `simgood`); `Proofs/C03.lean: vpush_acc_is_pointer`, `vpush_acc_inline_pinned`.
 4. *Total signatures*: `HeapOps.put`, `getAt`, `globGet` … cannot fail, the Rust ones can panic (index out
    of range, `expect`). Those paths return a default here (`Undefined`, no-op); they are unreachable for
    addresses the simulation relation knows about. `heap.get(ptr)` of a payload cell returns the `Rc`
